@@ -456,7 +456,7 @@ def check_c20(tier):
 
 
 def check_c14(tier):
-    return check_simple("C14", "c14_builders", "c14", tier, 2500, 10000,
+    return check_simple("C14", "c14_builders", "c14", tier, 2500, 3000,
                         ["builder_finalized", "direct_dedup_ok", "cleanup_mask_7", "cleanup_mask_1", "cleanup_mask_2",
                          "cleanup_mask_4", "cleanup_removed_faces", "strips_restart_checked", "strips_degenerate_checked",
                          "pc_builder_dedup", "pc_builder_nodedup", "special_float_patterns"],
